@@ -355,7 +355,23 @@ func corr(c *hc.Ctx) []*canvas.Path {
 				} else {
 					c.Count("scenario:collinear-reversal:" + kind)
 				}
-					} else if follow >= 0 && c.Chance(0.35) {
+					} else if s.head[0] == 'E' && len(s.ops) == 0 && c.Chance(0.12) {
+				// scenario: curves at large coordinates (1e5..1e7: one ulp is 1e-11..2e-9, around Epsilon), a
+				// closed curved subpath followed by a closed flat one — the end point of a flattened /
+				// converted arc then differs from the record's end point by rounding noise, which replace has
+				// to bridge with a LineTo so that the subpath is not split
+				sc := []float64{1e5, 1e6, 4e6, 1e7}[c.Intn(4)]
+				ox, oy := math.Round(c.Range(-1, 1)*sc), math.Round(c.Range(-1, 1)*sc)
+				script = []op{{k: 'M', f: []float64{ox + 9, oy + 57}}, {k: 'L', f: []float64{ox + 30, oy + 40}},
+					{k: 'A', f: []float64{float64(5 + c.Intn(40)), float64(5 + c.Intn(40)), float64(c.Intn(12))*15 + c.Range(0, 1), ox + 9 + c.Range(0, 1), oy + 20}, l: c.Bool(), s: c.Bool()}}
+				if c.Bool() {
+					script = append(script, op{k: 'Q', f: []float64{ox - 5, oy + 30, ox + 2, oy + 45}})
+				}
+				script = append(script, op{k: 'L', f: []float64{ox + 16, oy + 70}}, op{k: 'Z'},
+					op{k: 'M', f: []float64{ox + 100, oy}}, op{k: 'L', f: []float64{ox + 110, oy}}, op{k: 'L', f: []float64{ox + 110, oy + 10}}, op{k: 'Z'})
+				nops = len(script)
+				c.Count("scenario:large-coordinate-curves")
+			} else if follow >= 0 && c.Chance(0.35) {
 				// scenario for Join's close repair: q continues p with an OPEN piece and has a later CLOSED
 				// subpath (plus, sometimes, a first piece that closes): only the Close of the joined piece
 				// may be redirected to p's start, every later Close keeps its own subpath's MoveTo
@@ -419,8 +435,10 @@ func corr(c *hc.Ctx) []*canvas.Path {
 			if hasArc(segs) {
 				mode = "~"
 			}
-			c.Case("C10 "+strings.Join(toks, " | "), mode, hc.DataHex(p.Data()))
+			hist := strings.Join(toks, " | ")
+			c.Case("C10 "+hist, mode, hc.DataHex(p.Data()))
 			c.Distinct(hc.DataHex(p.Data()))
+			deriverCases(c, p, hist, mode)
 			if it < 3 && k == nseg-1 {
 				c.Sample(fmt.Sprintf("history %v -> %q", segs, p.String()))
 			}
@@ -554,4 +572,114 @@ func joinKind(p, q *canvas.Path) string {
 		return "raw(apart)"
 	}
 	return "smart"
+}
+
+// deriverCases: the modelled derivers on the result of the history — Reverse, Split and the splice
+// driver replace with the real replacements recorded through the hook (Flatten, ReplaceArcs, XMonotone).
+func deriverCases(c *hc.Ctx, p *canvas.Path, hist, mode string) {
+	if len(p.Data()) == 0 || len(hist) > 6000 {
+		return
+	}
+	var rv *canvas.Path
+	if msg := hc.Try(func() { rv = p.Copy().Reverse() }); msg == "" {
+		c.Case("RV "+hist, mode, hc.DataHex(rv.Data()))
+		c.Count("case:RV")
+		// which branches of Reverse the input reaches
+		if segs, err := hc.Decode(p.Data()); err == nil {
+			for _, sub := range hc.Subpaths(segs) {
+				last := sub[len(sub)-1]
+				switch {
+				case len(sub) == 1:
+					c.Count("RV:branch:lone-moveto")
+				case last.Kind != 'Z':
+					c.Count("RV:branch:open-subpath")
+				default:
+					if near(last.P0, last.End) {
+						c.Count("RV:branch:closed,zero-length-close(no-line-emitted)")
+					} else {
+						c.Count("RV:branch:closed,close-becomes-line")
+					}
+					if len(sub) > 2 && sub[1].Kind == 'L' {
+						c.Count("RV:branch:closed,first-line-becomes-close")
+					} else {
+						c.Count("RV:branch:closed,first-segment-curve(close-appended)")
+					}
+					for _, s := range sub[2 : len(sub)-1] {
+						if s.Kind == 'L' && near(s.End, sub[0].End) {
+							c.Count("RV:branch:closed,revisits-first-point")
+						}
+					}
+				}
+			}
+		}
+	}
+	var ps []*canvas.Path
+	if msg := hc.Try(func() { ps = p.Copy().Split() }); msg == "" {
+		parts := make([]string, len(ps))
+		for i, q := range ps {
+			parts[i] = hc.DataHex(q.Data())
+		}
+		c.Case("SP "+hist, mode, strings.Join(parts, " | "))
+		c.Count(fmt.Sprintf("case:SP:pieces=%d", min(len(ps), 4)))
+	}
+	curved := false
+	for i, d := 0, p.Data(); i < len(d); i += recLen(d[i]) {
+		if d[i] == 4 || d[i] == 8 || d[i] == 16 {
+			curved = true
+		}
+	}
+	if !curved {
+		return
+	}
+	for _, m := range []string{"flatten", "arcs", "xmono"} {
+		var out *canvas.Path
+		var reps []canvas.VerifRep
+		tol := []float64{0.5, 0.1, 2}[c.Intn(3)]
+		if msg := hc.Try(func() { out, reps = p.Copy().VerifReplaceTrace(m, tol) }); msg != "" || len(reps) == 0 {
+			continue
+		}
+		var sb strings.Builder
+		sb.WriteString("RP " + hist)
+		for _, r := range reps {
+			sb.WriteString(" # " + hc.Hs(r.Start.X, r.Start.Y) + " " + hc.DataHex(r.Rec) + " :")
+			if len(r.Q) > 0 {
+				sb.WriteString(" " + hc.DataHex(r.Q))
+			}
+		}
+		if sb.Len() > 12000 {
+			c.Count("skip:RP-line-too-long")
+			continue
+		}
+		c.Case(sb.String(), mode, hc.DataHex(out.Data()))
+		c.Count("case:RP:" + m)
+		c.Count(fmt.Sprintf("RP:replacements=%d", min(len(reps), 5)))
+		for _, r := range reps {
+			switch {
+			case len(r.Q) <= 4:
+				c.Count("RP:branch:empty-replacement")
+			case len(r.Q) == 8:
+				c.Count("RP:branch:one-record-replacement")
+			default:
+				c.Count("RP:branch:multi-record-replacement")
+			}
+		}
+		if n0, n1 := strings.Count(p.String(), "M"), strings.Count(out.String(), "M"); n1 != n0 {
+			c.Count("RP:result-subpath-count-changed")
+		}
+		// the public methods are exactly the driver with these callbacks
+		var pub *canvas.Path
+		switch m {
+		case "flatten":
+			pub = p.Copy().Flatten(tol)
+		case "arcs":
+			pub = p.Copy().ReplaceArcs()
+		case "xmono":
+			pub = p.Copy().XMonotone()
+		}
+		if !sameData(pub.Data(), out.Data()) {
+			fail(c, "hook:replace-trace-differs:"+m, "the traced replace run differs from the public method", map[string]any{"p": p.String()})
+		}
+		checkDerived(c, map[string]string{"flatten": "Flatten", "arcs": "ReplaceArcs", "xmono": "XMonotone"}[m], p, []*canvas.Path{pub},
+			map[string]any{"p": p.String(), "pdata": hc.DataHex(p.Data()), "history": hist})
+	}
 }
